@@ -811,14 +811,388 @@ fn run_binom(cfg: &Cfg, rep: &mut Report) {
     }
 }
 
+// ---------------------------------------------------------------------------------------------
+// rejection probes with non-numbers and one-ulp-outside arguments
+
+fn next_up(x: f64) -> f64 {
+    // x finite, non-NaN
+    if x == 0.0 {
+        return 5e-324;
+    }
+    let b = x.to_bits();
+    f64::from_bits(if x > 0.0 { b + 1 } else { b - 1 })
+}
+fn next_down(x: f64) -> f64 {
+    -next_up(-x)
+}
+
+/// NaNs of both signs, quiet and signalling-pattern, with several payloads.
+fn nan_family(rng: &mut Rng) -> Vec<f64> {
+    let mut v = vec![f64::NAN, -f64::NAN, f64::from_bits(0x7ff0_0000_0000_0001), f64::from_bits(0xfff8_0000_0000_0001), f64::from_bits(0x7fff_ffff_ffff_ffff), 0.0 / 0.0 * 1.0, f64::INFINITY - f64::INFINITY];
+    for _ in 0..3 {
+        let payload = (rng.u64() % ((1u64 << 52) - 1)) + 1;
+        let sign = rng.u64() & (1u64 << 63);
+        v.push(f64::from_bits(sign | 0x7ff0_0000_0000_0000 | payload));
+    }
+    v
+}
+
+fn reject_probe(rep: &mut Report, assertion: &str, regime: &str, args: Value, r: Result<f64, String>) {
+    rep.case(regime);
+    rep.check(assertion, regime, r.is_err(), || json!({"args": args, "observed": jnum(*r.as_ref().unwrap()), "expected": "panic: argument is not inside the domain"}));
+}
+
+/// Every function the property describes as rejecting arguments (`logit` outside [0,1]; the Box–Cox
+/// transforms outside x + shift > 0) is probed with what is *not* inside the domain without being an
+/// ordinary out-of-range number: NaN (any sign / payload), ±∞ where they are outside, and the
+/// representable neighbours of the domain edge.
+fn rejection_case(rep: &mut Report, rng: &mut Rng, i: usize) {
+    {
+        let lambda = gen_lambda(rng, i);
+        let mut nans = nan_family(rng);
+        if cfg!(miri) {
+            nans.truncate(3); // a panic costs ~0.1 s there
+        }
+        // ---- logit
+        for &p in &nans {
+            reject_probe(rep, "C17.logit.rejects", "logit:NaN", json!({"p": format!("NaN bits {:#018x}", p.to_bits())}), guard(|| logit(p)));
+        }
+        for &p in &[f64::INFINITY, f64::NEG_INFINITY] {
+            reject_probe(rep, "C17.logit.rejects", "logit:±inf", json!({"p": jnum(p)}), guard(|| logit(p)));
+        }
+        for &p in &[next_up(1.0), next_down(0.0), next_down(-0.0), next_up(next_up(1.0)), -TINY] {
+            reject_probe(rep, "C17.logit.rejects", "logit:1ulp-outside", json!({"p": p, "bits": format!("{:#018x}", p.to_bits())}), guard(|| logit(p)));
+        }
+        // the neighbours on the inside must still be accepted
+        for &p in &[next_down(1.0), 1.0, 0.0, -0.0, 5e-324] {
+            logistic_of_logit(rep, p, "logistic∘logit:p-edge-inside");
+        }
+        // ---- boxcox
+        for &x in &nans {
+            reject_probe(rep, "C17.boxcox.rejects", "boxcox:x=NaN", json!({"x": format!("NaN bits {:#018x}", x.to_bits()), "lambda": lambda}), guard(|| boxcox(x, lambda)));
+        }
+        for &x in &[f64::NEG_INFINITY, next_down(0.0), -TINY, 0.0, -0.0] {
+            reject_probe(rep, "C17.boxcox.rejects", "boxcox:x<=0:edge,-inf", json!({"x": jnum(x), "lambda": lambda}), guard(|| boxcox(x, lambda)));
+        }
+        {
+            // smallest positive argument is inside the domain
+            let x = 5e-324;
+            rep.case("boxcox:x>0");
+            let r = guard(|| boxcox(x, lambda));
+            rep.check("C17.boxcox.accepts", "boxcox:x>0", r.is_ok(), || json!({"x": x, "lambda": lambda, "panic": r.as_ref().err()}));
+        }
+        // ---- boxcox_shifted: x + shift is NaN
+        let fin = rng.log_range(1e-6, 1e6) * if rng.bool() { 1.0 } else { -1.0 };
+        for &q in &nans {
+            for (x, s) in [(q, fin), (fin, q), (q, q), (q, 0.0), (q, f64::INFINITY)] {
+                reject_probe(rep, "C17.boxcox_shifted.rejects", "boxcox_shifted:x+shift=NaN", json!({"x": jnum(x), "shift": jnum(s), "lambda": lambda, "nan_bits": format!("{:#018x}", q.to_bits())}), guard(|| boxcox_shifted(x, lambda, s)));
+            }
+        }
+        for (x, s) in [(f64::INFINITY, f64::NEG_INFINITY), (f64::NEG_INFINITY, f64::INFINITY)] {
+            reject_probe(rep, "C17.boxcox_shifted.rejects", "boxcox_shifted:x+shift=NaN", json!({"x": jnum(x), "shift": jnum(s), "lambda": lambda}), guard(|| boxcox_shifted(x, lambda, s)));
+        }
+        // x + shift = -inf, exactly 0 (x = -shift, both orders of sign), one ulp below 0
+        let a = rng.log_range(1e-6, 1e6);
+        for (x, s) in [(f64::NEG_INFINITY, fin), (fin, f64::NEG_INFINITY), (a, -a), (-a, a), (0.0, 0.0), (-0.0, -0.0), (0.0, -5e-324), (-5e-324, 0.0), (a, next_down(-a)), (next_down(-a), a), (-TINY, 0.5 * TINY)] {
+            let sum = x + s;
+            debug_assert!(!(sum > 0.0));
+            reject_probe(rep, "C17.boxcox_shifted.rejects", "boxcox_shifted:x+shift<=0:edge,-inf", json!({"x": jnum(x), "shift": jnum(s), "x+shift": jnum(sum), "lambda": lambda}), guard(|| boxcox_shifted(x, lambda, s)));
+        }
+        // one ulp inside: x + shift is the smallest positive difference
+        for (x, s) in [(a, next_up(-a)), (next_up(-a), a), (5e-324, 0.0), (0.0, 5e-324)] {
+            let sum = x + s;
+            if !(sum > 0.0) {
+                continue;
+            }
+            let regime = if x > s { "boxcox_shifted:x>shift,x+shift>0" } else { "boxcox_shifted:x<=shift,x+shift>0" };
+            rep.case(regime);
+            rep.seen("cover:boxcox_shifted:1ulp-inside", 1);
+            let r = guard(|| boxcox_shifted(x, lambda, s));
+            rep.check("C17.boxcox_shifted.accepts", regime, r.is_ok(), || json!({"x": x, "shift": s, "x+shift": sum, "lambda": lambda, "panic": r.as_ref().err()}));
+        }
+    }
+}
+
+// ---------------------------------------------------------------------------------------------
+// history independence: the functions of C17 are functions of their arguments
+
+/// One observable library call.
+#[derive(Clone, Debug)]
+enum Call {
+    Logistic(f64),
+    Logit(f64),
+    Boxcox(f64, f64),
+    BoxcoxShifted(f64, f64, f64),
+    Softmax(Vec<f64>),
+    Binom(u64, u64),
+    BinomAlt(u64, u64),
+}
+
+/// Observation of a call: the bit patterns of what it returned, or "panicked".
+type Obs = Result<Vec<u64>, ()>;
+
+fn fbits(x: f64) -> u64 {
+    if x.is_nan() {
+        0x7ff8_0000_0000_0000
+    } else {
+        x.to_bits()
+    }
+}
+
+impl Call {
+    fn name(&self) -> &'static str {
+        match self {
+            Call::Logistic(_) => "logistic",
+            Call::Logit(_) => "logit",
+            Call::Boxcox(..) => "boxcox",
+            Call::BoxcoxShifted(..) => "boxcox_shifted",
+            Call::Softmax(_) => "softmax",
+            Call::Binom(..) => "binom_coeff",
+            Call::BinomAlt(..) => "binom_coeff_alt",
+        }
+    }
+    fn eval(&self) -> Obs {
+        guard(|| match self {
+            Call::Logistic(x) => vec![fbits(logistic(*x))],
+            Call::Logit(p) => vec![fbits(logit(*p))],
+            Call::Boxcox(x, l) => vec![fbits(boxcox(*x, *l))],
+            Call::BoxcoxShifted(x, l, s) => vec![fbits(boxcox_shifted(*x, *l, *s))],
+            Call::Softmax(v) => softmax(v).iter().map(|&y| fbits(y)).collect(),
+            Call::Binom(n, k) => vec![binom_coeff(*n, *k)],
+            Call::BinomAlt(n, k) => vec![binom_coeff_alt(*n, *k)],
+        })
+        .map_err(|_| ())
+    }
+    fn json(&self) -> Value {
+        match self {
+            Call::Logistic(x) => json!({"x": jnum(*x)}),
+            Call::Logit(p) => json!({"p": jnum(*p)}),
+            Call::Boxcox(x, l) => json!({"x": jnum(*x), "lambda": jnum(*l)}),
+            Call::BoxcoxShifted(x, l, s) => json!({"x": jnum(*x), "lambda": jnum(*l), "shift": jnum(*s)}),
+            Call::Softmax(v) => json!({"x": jf(v)}),
+            Call::Binom(n, k) | Call::BinomAlt(n, k) => json!({"n": n, "k": k}),
+        }
+    }
+    /// A different call of the same function whose arguments lie within a relative distance
+    /// 2^-52..1e-6 of this one's (integers: ±1) in a non-empty subset of the coordinates.
+    fn near(&self, rng: &mut Rng) -> Call {
+        fn nudge(rng: &mut Rng, x: f64) -> f64 {
+            let y = match rng.usize(0, 3) {
+                0 => {
+                    if rng.bool() {
+                        next_up(x)
+                    } else {
+                        next_down(x)
+                    }
+                }
+                1 => x + (rng.log_range(1e-15, 1e-6) * if rng.bool() { 1.0 } else { -1.0 }),
+                _ => x * (1.0 + rng.log_range(1e-15, 1e-6) * if rng.bool() { 1.0 } else { -1.0 }),
+            };
+            if y == x || !y.is_finite() {
+                next_up(x)
+            } else {
+                y
+            }
+        }
+        let mask = rng.usize(1, 7);
+        match self {
+            Call::Logistic(x) => Call::Logistic(nudge(rng, *x)),
+            Call::Logit(p) => Call::Logit(nudge(rng, *p)),
+            Call::Boxcox(x, l) => {
+                let m = 1 + mask % 3;
+                Call::Boxcox(if m & 1 != 0 { nudge(rng, *x) } else { *x }, if m & 2 != 0 { nudge(rng, *l) } else { *l })
+            }
+            Call::BoxcoxShifted(x, l, s) => Call::BoxcoxShifted(if mask & 1 != 0 { nudge(rng, *x) } else { *x }, if mask & 2 != 0 { nudge(rng, *l) } else { *l }, if mask & 4 != 0 { nudge(rng, *s) } else { *s }),
+            Call::Softmax(v) => {
+                let mut w = v.clone();
+                if rng.bool() {
+                    let j = rng.usize(0, w.len() - 1);
+                    w[j] = nudge(rng, w[j]);
+                } else {
+                    for e in w.iter_mut() {
+                        *e = nudge(rng, *e);
+                    }
+                }
+                Call::Softmax(w)
+            }
+            Call::Binom(n, k) | Call::BinomAlt(n, k) => {
+                let (n2, k2) = match rng.usize(0, 3) {
+                    0 => (n + 1, *k),
+                    1 if *n > *k => (n - 1, *k),
+                    2 if *k < *n => (*n, k + 1),
+                    3 if *k > 0 => (*n, k - 1),
+                    _ => (n + 1, k + 1),
+                };
+                if matches!(self, Call::Binom(..)) {
+                    Call::Binom(n2, k2)
+                } else {
+                    Call::BinomAlt(n2, k2)
+                }
+            }
+        }
+    }
+}
+
+fn gen_call(rng: &mut Rng, which: usize) -> Call {
+    match which % 7 {
+        0 => Call::Logistic(match rng.usize(0, 2) {
+            0 => rng.range(-40.0, 40.0),
+            1 => rng.range(-745.0, 745.0),
+            _ => rng.log_range(1e-12, 30.0) * if rng.bool() { 1.0 } else { -1.0 },
+        }),
+        // interior, tiny, next to 1, and the end points (whose neighbours are outside the domain)
+        1 => Call::Logit(match rng.usize(0, 5) {
+            0 | 1 => rng.open01(),
+            2 => rng.log_range(1e-300, 1e-3),
+            3 => 1.0 - rng.log_range(EPS / 2.0, 1e-3),
+            4 => 1.0,
+            _ => 0.0,
+        }),
+        2 => {
+            let li = rng.usize(0, 7);
+            let l = gen_lambda(rng, li);
+            Call::Boxcox(
+                match rng.usize(0, 4) {
+                    0 => 1.0 + rng.log_range(1e-15, 1e-3) * if rng.bool() { 1.0 } else { -1.0 },
+                    1 => 5e-324,
+                    _ => rng.log_range(1e-6, 1e6),
+                },
+                l,
+            )
+        }
+        3 => {
+            let li = rng.usize(0, 7);
+            let l = gen_lambda(rng, li);
+            let x = rng.log_range(1e-6, 1e6) * if rng.bool() { 1.0 } else { -1.0 };
+            let s = match rng.usize(0, 4) {
+                0 => next_up(-x),     // x + shift one ulp inside
+                1 => -x,              // x + shift = 0: rejected, neighbours accepted
+                2 => 0.0,
+                _ => x.abs() * rng.log_range(1.001, 1e3),
+            };
+            Call::BoxcoxShifted(x, l, s)
+        }
+        4 => {
+            let len = *rng.choose(&[1usize, 2, 3, 7, 40]);
+            let c = rng.range(-1e4, 1e4);
+            let w = *rng.choose(&[0.0, 1e-9, 1.0, 30.0, 800.0]);
+            Call::Softmax((0..len).map(|_| (c + w * rng.range(-1.0, 1.0)).clamp(-1e4, 1e4)).collect())
+        }
+        5 => {
+            let n = rng.usize(1, 67) as u64;
+            Call::Binom(n, rng.usize(0, n as usize) as u64)
+        }
+        _ => {
+            let n = rng.usize(1, 60) as u64;
+            Call::BinomAlt(n, rng.usize(0, n as usize) as u64)
+        }
+    }
+}
+
+fn on_fresh_thread<T: Send>(f: impl FnOnce() -> T + Send) -> T {
+    std::thread::scope(|s| s.spawn(f).join().expect("fresh thread"))
+}
+
+fn obs_json(o: &Obs) -> Value {
+    match o {
+        Err(()) => json!("panic"),
+        Ok(v) if v.len() == 1 => json!(format!("{:#018x} ({:e})", v[0], f64::from_bits(v[0]))),
+        Ok(v) => json!(v.iter().take(8).map(|b| format!("{:#018x}", b)).collect::<Vec<_>>()),
+    }
+}
+
+/// The value (or panic) of a call must not depend on which calls the thread made before it. The
+/// call under test is observed (a) directly after an unrelated ("far") call of the same function — the
+/// baseline —, (b) as the first library call of a new thread, (c) after itself, (d) after each of three
+/// near neighbours (arguments within 2^-52..1e-6), (e) as the last element of the sweep
+/// near1, near2, near3, target; the neighbours are observed after the target and inside the sweep
+/// as well. All observations of one argument must be identical bit for bit.
+fn history_case(cfg: &Cfg, rep: &mut Report, rng: &mut Rng, which: usize, fresh: bool) {
+    let target = gen_call(rng, which);
+    let far = gen_call(rng, which);
+    let nears: Vec<Call> = (0..3).map(|_| target.near(rng)).collect();
+    let name = target.name();
+    let assertion = format!("C17.{}.history_independent", name);
+    // every observation starts from the same state: the unrelated call first, so that the recorded
+    // predecessor chain (unrelated call, predecessor, call) is the complete relevant history
+    let after = |pred: &Call, c: &Call| -> Obs {
+        let _ = far.eval();
+        let _ = pred.eval();
+        c.eval()
+    };
+    let baseline = |c: &Call| -> Obs {
+        let _ = far.eval();
+        c.eval()
+    };
+    let base_t = baseline(&target);
+    let base_n: Vec<Obs> = nears.iter().map(baseline).collect();
+    let cmp = |rep: &mut Report, kind: &str, c: &Call, base: &Obs, got: &Obs, pred: Value| {
+        let regime = format!("{}:history:{}", name, kind);
+        rep.case(&regime);
+        rep.check(&assertion, &regime, base == got, || json!({"call": c.json(), "preceded_by": pred, "observed": obs_json(got), "same_call_after_an_unrelated_call": obs_json(base), "unrelated_call": far.json()}));
+    };
+    if fresh && !cfg.miri() {
+        let got = on_fresh_thread(|| target.eval());
+        cmp(rep, "fresh-thread", &target, &base_t, &got, json!("nothing (first call of a new thread)"));
+    }
+    let got = after(&target, &target);
+    cmp(rep, "after-self", &target, &base_t, &got, target.json());
+    for (c, b) in nears.iter().zip(&base_n) {
+        let got = after(c, &target);
+        cmp(rep, "after-near", &target, &base_t, &got, c.json());
+        let got = after(&target, c);
+        cmp(rep, "after-near", c, b, &got, target.json());
+    }
+    let _ = far.eval();
+    let mut prev = far.json();
+    for (c, b) in nears.iter().zip(&base_n).chain(std::iter::once((&target, &base_t))) {
+        let got = c.eval();
+        cmp(rep, "sweep", c, b, &got, prev);
+        prev = c.json();
+    }
+    rep.distinct(Hasher::new().s("hist").s(name).s(&target.json().to_string()).finish(), true);
+}
+
+const HISTORY_FNS: [&str; 7] = ["logistic", "logit", "boxcox", "boxcox_shifted", "softmax", "binom_coeff", "binom_coeff_alt"];
+
+/// Rejection probes and history cases run as one fan-out (stream 6): case indices 0..n_rej are
+/// rejection cases, the rest history cases.
+fn run_added_families(cfg: &Cfg, rep: &mut Report) {
+    let n_rej = cfg.pick(64, 512, 2);
+    let n_hist = cfg.pick(7 * 600, 7 * 12_000, 7);
+    par_cases(cfg, rep, 6, n_rej + n_hist, |i, rng, rep| {
+        if i < n_rej {
+            rejection_case(rep, rng, i);
+        } else {
+            let k = i - n_rej;
+            history_case(cfg, rep, rng, k % 7, (k / 7) % 8 == 0);
+        }
+    });
+    for r in ["logit:NaN", "logit:±inf", "logit:1ulp-outside", "logistic∘logit:p-edge-inside", "boxcox:x=NaN", "boxcox:x<=0:edge,-inf", "boxcox_shifted:x+shift=NaN", "boxcox_shifted:x+shift<=0:edge,-inf", "cover:boxcox_shifted:1ulp-inside"] {
+        rep.require(r, 1);
+    }
+    for f in HISTORY_FNS {
+        for kind in ["after-self", "after-near", "sweep"] {
+            rep.require(&format!("{}:history:{}", f, kind), 1);
+        }
+        if !cfg.miri() {
+            rep.require(&format!("{}:history:fresh-thread", f), 1);
+        }
+    }
+}
+
 pub fn run(cfg: &Cfg, rep: &mut Report) {
-    rep.rule = "logistic: consecutive f32 values in ±745 (thorough: all of them; quick: stratified runs), round trips on random x in ±30 and p in [0,1] (interior, tiny, near 1, subnormal, end points); softmax: lengths 1..1000, entries on a 2^-20 grid in ±1e4, one input class per magnitude regime, each vector also shifted by ±1e3, ±1e4, -max; Box–Cox: x, x+shift log-uniform in (1e-6,1e6), λ in ±5 incl. 0 and |λ|<1e-8, four (x>shift, x+shift>0) classes; binomial: every (n,k) with n<=67, then random n>=68 with k<=32 or k>=n-32 up to the largest n whose value fits 64 bits. non-trivial = softmax vector with >= 2 distinct entries, 0<k<n, x != 1, shift != 0; distinct by argument bits".into();
-    rep.assume("NaN arguments are outside every quantifier of C17 and are not generated");
+    rep.rule = "logistic: consecutive f32 values in ±745 (thorough: all of them; quick: stratified runs), round trips on random x in ±30 and p in [0,1] (interior, tiny, near 1, subnormal, end points); softmax: lengths 1..1000, entries on a 2^-20 grid in ±1e4, one input class per magnitude regime, each vector also shifted by ±1e3, ±1e4, -max; Box–Cox: x, x+shift log-uniform in (1e-6,1e6), λ in ±5 incl. 0 and |λ|<1e-8, four (x>shift, x+shift>0) classes; binomial: every (n,k) with n<=67, then random n>=68 with k<=32 or k>=n-32 up to the largest n whose value fits 64 bits. rejection probes: NaN (both signs, quiet/signalling patterns, random payloads), ±inf and the representable neighbours of each domain edge for logit, boxcox, boxcox_shifted; history: each of the seven functions re-evaluated at one argument after itself, after near neighbours (2^-52..1e-6 away), in a sweep and on a fresh thread. non-trivial = softmax vector with >= 2 distinct entries, 0<k<n, x != 1, shift != 0; distinct by argument bits".into();
+    rep.assume("NaN is generated only as an argument that must be rejected (it is not inside [0,1] and does not satisfy x + shift > 0); values of the transforms at NaN, and NaN as λ, are outside the quantifier");
+    rep.assume("Box–Cox: +inf satisfies x + shift > 0 and is not probed as a rejection; -inf, NaN, 0, -0 and the negative neighbours of 0 must be rejected, the positive neighbour of 0 accepted");
+    rep.assume("history independence: every function of C17 is a function of its arguments, so one argument has one result (bit pattern or panic) whatever the thread called before; compared against the same call made directly after an unrelated call of the same function and, for one case in 8, as the first call of a new thread");
     rep.assume("round-trip and softmax bounds carry an absolute underflow term of a few times the smallest normal number: results in the subnormal range have absolute, not relative, rounding error");
     rep.assume("softmax order preservation is non-strict (x_i < x_j ⇒ s_i <= s_j, equal inputs ⇒ identical outputs): far-below-maximum entries legitimately underflow to equal values");
     rep.assume("softmax inputs lie on a 2^-20 grid so that adding ±1e3, ±1e4 is exact; shifted vectors with an entry beyond ±1e4 are skipped");
     rep.assume("binom_coeff is not judged when C(n,k) >= 2^64 (the property is silent there); binom_coeff_alt is judged only for n <= 67");
     rep.assume("Box–Cox accuracy is judged against the conditioning of the function ((x^λ−1)/λ is well conditioned near λ = 0): 16ε(1+|λ ln t|) relative");
+    // added families first (rejection probes, history independence): merged while the report is small
+    run_added_families(cfg, rep);
     run_logistic(cfg, rep);
     run_softmax(cfg, rep);
     run_boxcox(cfg, rep);
